@@ -30,7 +30,7 @@ Section WithBz.
   Lemma Rsafe_split_new : forall e protocol, Rsafe (split_new e protocol).
   Proof.
     intros e protocol. unfold split_new, read_u32, read_u16, rest_bytes.
-    apply Rsafe_bind; [apply Rsafe_read_uint|intros _].
+    apply Rsafe_bind; [apply Rsafe_read_uint|intros header].
     apply Rsafe_bind; [apply Rsafe_read_uint|intros id].
     destruct e as [ids|f].
     - apply Rsafe_bind; [apply Rsafe_read_u8|intros total].
@@ -66,11 +66,12 @@ Section WithBz.
     apply Mok_bind; [apply Mok_get_payload|intros payload; apply Mok_lift; apply packet_from_safe].
   Qed.
 
-  Lemma Mok_recv_chunks : forall k e protocol acc, Mokv (recv_chunks k e protocol acc).
+  Lemma Mok_recv_chunks : forall k e protocol first acc, Mokv (recv_chunks k e protocol first acc).
   Proof.
-    induction k as [|k IH]; intros e protocol acc; cbn [recv_chunks]; [apply Mok_ret|].
+    induction k as [|k IH]; intros e protocol first acc; cbn [recv_chunks]; [apply Mok_ret|].
     apply Mok_bind; [apply Mok_udp_recv; exact I|intros d].
-    apply Mok_bind; [apply Mok_lift; apply Rsafe_run; apply Rsafe_split_new|intros c; apply IH].
+    apply Mok_bind; [apply Mok_lift; apply Rsafe_run; apply Rsafe_split_new|intros c].
+    apply Mok_if; [apply Mok_fail|apply IH].
   Qed.
 
   Definition receive_rest (e : engine) (protocol : N) (data : bytes) : M (N * bytes) :=
@@ -79,7 +80,7 @@ Section WithBz.
     | header :: _ =>
         if header =? 254 then
           do* first := mlift (fst (split_new e protocol (buf_new data))) in
-          do* others := recv_chunks (N.to_nat (sp_total first) - 1) e protocol [] in
+          do* others := recv_chunks (N.to_nat (sp_total first) - 1) e protocol first [] in
           reassemble bz (first :: others)
         else mlift (packet_from data)
     end.
